@@ -819,6 +819,64 @@ theorem C06_non_unique_types_witness :
     nonUniqueOut { cap := 95, openLen := 1, sepLen := 3, zeroLen := 1, closeLen := 1, kinds := [11, 8, 10, 10, 15, 12, 8, 10] }
       [true, true, true, true, true, true, true, true] = .overflow 95 := by decide
 
+/-! ## exppp print-to-string mode -/
+
+def StrBufInv (c : StrBufCfg) (s : StrBufState) : Prop := s.used + s.remaining = c.room ∧ s.terminated = true
+
+def strBufCfgSafe (c : StrBufCfg) : Bool :=
+  decide (c.policy = .drop) && decide (c.copyExtra = 1) && decide (c.room + 1 ≤ c.allocated)
+
+theorem strBufStep_safe (c : StrBufCfg) (h : strBufCfgSafe c = true) (s : StrBufState) (l : Nat) (hi : StrBufInv c s) :
+    ∃ s', strBufStep c s l = .ok s' ∧ StrBufInv c s' := by
+  simp [strBufCfgSafe] at h
+  obtain ⟨⟨hp, he⟩, ha⟩ := h
+  obtain ⟨hsum, ht⟩ := hi
+  unfold strBufStep
+  by_cases hl : s.remaining < l
+  · refine ⟨s, by simp [hl, hp], hsum, ht⟩
+  · have hfit : ¬ c.allocated < s.used + l + c.copyExtra := by omega
+    refine ⟨⟨s.used + l, s.remaining - l, decide (1 ≤ c.copyExtra)⟩, by simp [hl, hfit], ?_, ?_⟩
+    · show s.used + l + (s.remaining - l) = c.room
+      omega
+    · show decide (1 ≤ c.copyExtra) = true
+      simp [he]
+
+/-- **C06, exppp string mode** (`EXPRto_string`, `TYPEto_string`, … as used by exp2cxx): for every sequence of printed
+chunks of any lengths, `exp_output` stores only inside the malloc'ed block and the string it leaves behind is always
+terminated inside the block (a chunk that does not fit is dropped, never half-copied). -/
+theorem C06_string_buffer_terminated (chunks : List Nat) :
+    ∃ s, strBufRun strBufCfg (strBufInit strBufCfg) chunks = .ok s ∧ s.terminated = true ∧ s.used + 1 ≤ strBufCfg.allocated := by
+  have hc : strBufCfgSafe strBufCfg = true := by decide
+  have key : ∀ (cs : List Nat) (s0 : StrBufState), StrBufInv strBufCfg s0 →
+      ∃ s, strBufRun strBufCfg s0 cs = .ok s ∧ StrBufInv strBufCfg s := by
+    intro cs
+    induction cs with
+    | nil => intro s0 h0; exact ⟨s0, rfl, h0⟩
+    | cons l rest ih =>
+      intro s0 h0
+      obtain ⟨s1, h1, hi1⟩ := strBufStep_safe strBufCfg hc s0 l h0
+      obtain ⟨s2, h2, hi2⟩ := ih s1 hi1
+      exact ⟨s2, by simp [strBufRun, h1, h2], hi2⟩
+  obtain ⟨s, hr, hsum, ht⟩ := key chunks (strBufInit strBufCfg) ⟨by simp [strBufInit], rfl⟩
+  have ha : strBufCfg.room + 1 ≤ strBufCfg.allocated := by decide
+  exact ⟨s, hr, ht, by omega⟩
+
+/-- seeded regression C06-b2 ("keep the part that fits" but copy `len + 1` bytes): one chunk longer than the room leaves
+the buffer without a terminator -/
+theorem C06_string_buffer_truncate_witness :
+    strBufRun { allocated := 100001, room := 100000, policy := .truncate, copyExtra := 1 } ⟨0, 100000, true⟩ [120000]
+      = .ok ⟨100000, 0, false⟩ := by decide
+
+/-! ## qualifier resolution through select types -/
+
+/-- **C06, `x.attr` / `x\\ent` through a SELECT**: `EXP_resolve_op_dot_fuzzy` / `EXP_resolve_op_group_fuzzy` return on every
+select graph, circular ones (reported, but resolution goes on) included; depends on the regenerated fact that visited selects
+are marked, before the members are searched, with an id that stays fixed during the search. -/
+theorem C06_select_qualifier_terminates (u : List Nat) (h : Hier) (hc : Closed u h) (marked : List Nat) (e : Nat) (he : e ∈ u) :
+    ∃ m, visit selectSearchMarkStable h (u.length + 1) marked e = some m := by
+  have hm : selectSearchMarkStable = true := by decide
+  rw [hm]; exact visit_terminates u h hc marked e he
+
 /-! ## exit status -/
 
 def exitCfgSmall (c : ExitCfg) : Bool :=
